@@ -142,7 +142,7 @@ enum {
     OP_JSON0, /* core: 0..17 */
     OP_JSON1, OP_JSON2, OP_SET_G1, OP_SET_G2, OP_SET_BAD, OP_SET_UNDEF, OP_SET_UNKW, OP_ALIGN_T1, OP_ALIGN_EMPTY, OP_ALIGN_UNK, OP_ADD_NEW,
     OP_ADD_ALT, OP_ADD_DUP, OP_ADD_ALT_NOBASE, OP_ADD_BADPHONE, OP_ADD_EMPTYWORD, OP_ADD_EMPTYPRON, OP_ADD_NEW_NOUPDATE, OP_ADD_ALT_DUP, OP_LOOKUP,
-    OP_GETCMN0, OP_GETCMN1, OP_SETCMN, OP_REINIT, OP_ADD_MANY, OP_ADD_ONEPHONE, OP_ADD_WS, OP_PROC_ALL, NOPS
+    OP_GETCMN0, OP_GETCMN1, OP_SETCMN, OP_REINIT, OP_ADD_MANY, OP_ADD_ONEPHONE, OP_ADD_WS, OP_PROC_ALL, OP_PROC_ALL_FULL, NOPS
 };
 static const char *const OPNAME[NOPS] = {
     "start", "procA", "end", "hyp", "segwalk", "alignment", "free",
@@ -150,7 +150,7 @@ static const char *const OPNAME[NOPS] = {
     "json0",
     "json1", "json2", "setG1", "setG2", "setBadSyntax", "setUndefRule", "setUnknownWord", "alignT1", "alignEmpty", "alignUnknown", "addNew",
     "addAlt", "addDup", "addAltNoBase", "addBadPhone", "addEmptyWord", "addEmptyPron", "addNewNoUpdate", "addAltTwice", "lookup",
-    "getcmn0", "getcmn1", "setcmn", "reinit", "addMany", "addOnePhone", "addWithWhitespace", "procAll",
+    "getcmn0", "getcmn1", "setcmn", "reinit", "addMany", "addOnePhone", "addWithWhitespace", "procAll", "procAll_fullutt",
 };
 #define N_PROTO 7
 #define N_CORE 18
@@ -298,6 +298,7 @@ apply_op(model_t *m, int op, const char *cd)
         m->st = ST_ACTIVE;
         break;
     case OP_PROC_ALL:
+    case OP_PROC_ALL_FULL:
     case OP_PROC_A:
     case OP_PROC_B:
     case OP_PROC_SIL:
@@ -305,12 +306,12 @@ apply_op(model_t *m, int op, const char *cd)
     case OP_PROC_A_NOSEARCH:
     case OP_PROC_A_FULL:
     case OP_PROC_A_FLOAT: {
-        int16 *buf = op == OP_PROC_B ? AUD_B : op == OP_PROC_SIL ? AUD_SIL : op == OP_PROC_ALL ? AUD_ALL : AUD_A;
-        size_t n = op == OP_PROC_B ? N_B : op == OP_PROC_SIL ? N_SIL : op == OP_PROC_EMPTY ? 0 : op == OP_PROC_ALL ? N_ALL : N_A;
+        int16 *buf = op == OP_PROC_B ? AUD_B : op == OP_PROC_SIL ? AUD_SIL : (op == OP_PROC_ALL || op == OP_PROC_ALL_FULL) ? AUD_ALL : AUD_A;
+        size_t n = op == OP_PROC_B ? N_B : op == OP_PROC_SIL ? N_SIL : op == OP_PROC_EMPTY ? 0 : (op == OP_PROC_ALL || op == OP_PROC_ALL_FULL) ? N_ALL : N_A;
         if (op == OP_PROC_A_FLOAT)
             rv = decoder_process_float32(D, AUD_AF, n, 0, 0);
         else
-            rv = decoder_process_int16(D, buf, n, op == OP_PROC_A_NOSEARCH, op == OP_PROC_A_FULL);
+            rv = decoder_process_int16(D, buf, n, op == OP_PROC_A_NOSEARCH, op == OP_PROC_A_FULL || op == OP_PROC_ALL_FULL);
         if (m->st != ST_ACTIVE)
             return expect_ret(rv < 0, cd, OPNAME[op], sn, "< 0", rv);
         if (expect_ret(rv >= 0, cd, OPNAME[op], sn, ">= 0", rv) < 0)
@@ -657,7 +658,16 @@ probe_short(decoder_t *d, char *out, size_t n, int setgram)
     }
     rep = decoder_get_cmn(d, 0);
     if (l + 8 < n)
-        snprintf(out + l, n - l, " || cmn: %s", rep ? rep : "NULL");
+        l += snprintf(out + l, n - l, " || cmn: %s", rep ? rep : "NULL");
+    /* the whole recording streamed in TWO calls, a short one and a very long one (more frames than any of the decoder's rings holds
+     * on a fresh decoder), normalisation fixed */
+    if (decoder_set_cmn(d, CMN_FIXED) < 0 || decoder_start_utt(d) < 0 || decoder_process_int16(d, AUD_P, 2048, 0, 0) < 0
+        || decoder_process_int16(d, AUD_P + 2048, N_P - 2048, 0, 0) < 0 || decoder_end_utt(d) < 0)
+        return -14;
+    if (l + 8 < n) {
+        l += snprintf(out + l, n - l, " || BIG: ");
+        digest(d, out + l, n - l);
+    }
     return 0;
 }
 
@@ -1046,6 +1056,12 @@ main(int argc, char **argv)
         SET_N = (int)(sizeof ops / sizeof *ops);
         for (i = 0; i < SET_N; i++)
             SETMAP[i] = ops[i];
+    } else if (strcmp(set, "batchstream") == 0) {
+        /* whole-utterance and streaming calls of the whole recording mixed on one decoder (what one call sizes, the next inherits) */
+        static const int ops[] = { OP_START, OP_PROC_ALL_FULL, OP_PROC_ALL, OP_PROC_A, OP_END, OP_HYP, OP_SETCMN };
+        SET_N = (int)(sizeof ops / sizeof *ops);
+        for (i = 0; i < SET_N; i++)
+            SETMAP[i] = ops[i];
     } else if (strcmp(set, "boot") == 0) {
         /* what a decoder goes through on its way to its first utterance */
         static const int ops[] = { OP_START, OP_PROC_A, OP_END, OP_HYP, OP_SET_G1, OP_ALIGN_T1, OP_LATTICE, OP_ALIGN, OP_REINIT, OP_FREE };
@@ -1053,7 +1069,7 @@ main(int argc, char **argv)
         for (i = 0; i < SET_N; i++)
             SETMAP[i] = ops[i];
     }
-    if (strcmp(set, "dict") != 0 && strcmp(set, "boot") != 0 && strcmp(set, "lat") != 0)
+    if (strcmp(set, "dict") != 0 && strcmp(set, "boot") != 0 && strcmp(set, "lat") != 0 && strcmp(set, "batchstream") != 0)
         for (i = 0; i < SET_N; i++)
             SETMAP[i] = i;
     {
